@@ -1031,7 +1031,7 @@ fn main() {
     if sc["op"] == "android_rp" {
         // (asset-link host, RP ID) pairs through the Android branch of assert_domain, with the shipped suffix list
         const FP: &str = "B3:5B:68:D5:CE:84:50:55:7C:6A:55:FD:64:B5:1F:EA:C1:10:CB:36:D6:A3:52:1C:59:48:DB:3A:38:0A:34:A9";
-        let v = passkey_client::RpIdVerifier::new(public_suffix::DEFAULT_PROVIDER);
+        let v = passkey_client::RpIdVerifier::new(public_suffix::DEFAULT_PROVIDER).allows_insecure_localhost(sc["allow_localhost"].as_bool().unwrap_or(false));
         let mut out = Vec::new();
         for c in sc["cases"].as_array().cloned().unwrap_or_default() {
             let host = c[0].as_str().unwrap_or("example.com").to_string();
@@ -1053,24 +1053,33 @@ fn main() {
         use passkey_authenticator::MemoryStore;
         let mut old = Passkey::mock(rp.clone()).counter(5).build();
         old.credential_id = vec![1u8; 16].into();
+        old.user_handle = Some(vec![5u8; 8].into());
         let mut newer = old.clone();
         newer.counter = Some(6);
         let mut other = Passkey::mock(rp.clone()).counter(0).build();
         other.credential_id = vec![2u8; 16].into();
+        other.user_handle = old.user_handle.clone();      // same account, another credential (and, below, another RP)
+        let mut third = Passkey::mock("other-rp.example".into()).counter(0).build();
+        third.credential_id = vec![3u8; 16].into();
+        third.user_handle = old.user_handle.clone();
         let method = sc["method"].as_str().unwrap_or("update_credential").to_string();
         let user = make_credential::PublicKeyCredentialUserEntity { id: vec![9u8; 8].into(), display_name: None, name: None, icon_url: None };
         let rpe = make_credential::PublicKeyCredentialRpEntity { id: rp.clone(), name: None };
         let opts = make_credential::Options { rk: true, up: true, uv: false };
         let mut polls = 0u64;
+        let mut others_kept = true;
         let (answered_ok, stored_after) = if sc["store_kind"] == "memory" {
             let mut m = MemoryStore::new();
             m.insert(old.credential_id.clone().into(), old.clone());
+            m.insert(third.credential_id.clone().into(), third.clone());
             if method == "update_credential" {
                 let r = block_on(m.update_credential(newer.clone()), 100, &mut polls);
+                others_kept = m.get(third.credential_id.as_slice()).is_some();
                 (matches!(r, Some(Ok(()))), m.get(old.credential_id.as_slice()).and_then(|p| p.counter) == Some(6))
             } else {
                 let r = block_on(m.save_credential(other.clone(), user, rpe, opts), 100, &mut polls);
-                (matches!(r, Some(Ok(()))), m.get(other.credential_id.as_slice()).is_some() && m.get(old.credential_id.as_slice()).is_some())
+                others_kept = m.get(third.credential_id.as_slice()).is_some() && m.get(old.credential_id.as_slice()).is_some();
+                (matches!(r, Some(Ok(()))), m.get(other.credential_id.as_slice()).is_some())
             }
         } else {
             let mut s: Option<Passkey> = Some(old.clone());
@@ -1082,7 +1091,7 @@ fn main() {
                 (matches!(r, Some(Ok(()))), s.as_ref().map(|p| p.credential_id == other.credential_id) == Some(true))
             }
         };
-        println!("E2REPLAY {}", json!({"result": {"answered_ok": answered_ok, "stored_after": !answered_ok || stored_after}, "log": []}));
+        println!("E2REPLAY {}", json!({"result": {"answered_ok": answered_ok, "stored_after": !answered_ok || stored_after, "others_kept": others_kept}, "log": []}));
         return;
     }
     if sc["op"] == "authdata_setters" {
